@@ -649,7 +649,33 @@ pub fn builder_automata_checks(ctx: &mut Ctx, which: &str) -> Option<Failure> {
 }
 
 // ---------------------------------------------------------------- C02 / C19 / C04 / C14
+/// one expression with a large derivative closure of known size: a^[0..n] has exactly n + 2 derivatives
+/// (a^[0..k] for k = n..0, then the empty language); guards against approximate seen-sets
+fn large_closure_check(ctx: &mut Ctx) -> Option<Failure> {
+    ctx.case(|| {
+        let n: u32 = 300_000;
+        watch(format!("Loop(Range(97, 97), 0, {})", n));
+        let mut m = ReManager::new();
+        let a = m.range(A, A);
+        let e = m.smt_loop(a, 0, n);
+        let count = m.iter_derivatives(e).count();
+        if count != n as usize + 2 {
+            return fail("ReManager::iter_derivatives(count)", format!("Loop(Range(97, 97), 0, {})", n), format!("{} derivatives", n as usize + 2), format!("{}", count));
+        }
+        match m.try_compile(e, n as usize + 1) {
+            Some(aut) => fail("ReManager::try_compile", format!("Loop(Range(97, 97), 0, {}) bound={}", n, n + 1), "None".into(), format!("Some({} states)", aut.num_states())),
+            None => None,
+        }
+    })
+}
+
 pub fn automata_checks(ctx: &mut Ctx, which: &str) -> Option<Failure> {
+    if which == "C19" {
+        let r = large_closure_check(ctx);
+        if r.is_some() {
+            return r;
+        }
+    }
     let ws = words();
     let mut asts = special_asts();
     for _ in 0..800 {
